@@ -106,7 +106,7 @@ func genCase(t *rapid.T) Case {
 		for i := 0; i < nd; i++ {
 			doc, info := gen.Spec(t, gen.SpecOpts{MaxPaths: 2})
 			if rapid.Bool().Draw(t, "breakdoc") {
-				name := rapid.SampledFrom(gen.RuleEdits).Draw(t, "docedit")
+				name := gen.PickUniform(t, gen.RuleEdits, "docedit")
 				if name != "circularAncestry" {
 					gen.ApplyRuleEdit(t, name, doc, info)
 				}
